@@ -20,7 +20,13 @@ RULE = (
     "couplings excepted), TypeError / ValueError and an unchanged reading for out-of-domain values, and all recorded "
     "readings again after save + re-open.  Stored integers of the non-identity conversions (font size, rotation, crop, "
     "adjustments, brightness, gradient angle, stop position, line spacing) and assignment histories on attribute stores "
-    "(a:rPr, a:bodyPr, a:tcPr) are compared exactly with the Lean model.  Non-trivial = distinct (kind, property, value class, outcome)."
+    "(a:rPr, a:bodyPr, a:tcPr) are compared exactly with the Lean model.  ColorFormat, FillFormat and shape.adjustments are compared "
+    "with their state-machine models (Model/Color, Model/Fill, Model/Adjust) after every call of seeded histories from start states "
+    "the library never writes, each call through a proxy held from the start or through a new one (fonts, fills, lines, gradient "
+    "stops, pattern colours, table cells, chart series, slide backgrounds; the owner's .color shortcut; several proxies of one "
+    "shape).  A held-proxy pass assigns every property of the table through a new proxy and reads it through one held since "
+    "discovery, and the reverse.  Links that share a relationship and the points of one series formatted in any index order are "
+    "checked for independence across objects.  Non-trivial = distinct (kind, property, value class, outcome)."
 )
 ASSUMPTIONS = [
     "float inputs to the exact comparison are dyadic rationals (exactly representable); results within one ulp of a "
